@@ -49,7 +49,7 @@ struct Violation {
 
 struct CaseStats {
   long paths = 0, forks = 0, branch_points = 0, q_sat = 0, q_unsat = 0, q_unknown = 0;
-  long asserts = 0, nf_trivial = 0, solver_proved = 0, native_checks = 0;
+  long asserts = 0, nf_trivial = 0, solver_proved = 0, native_checks = 0, interval_decided = 0, relaxed_unsat = 0;
   long div0_assumed = 0, sqrtneg_assumed = 0, aux_unknown = 0;
   long faults = 0, abandoned = 0, exceptions = 0, symbolic_paths = 0, uninit_reads = 0;
   double solver_s = 0, wall_s = 0;
@@ -74,7 +74,7 @@ struct Engine {
   std::set<Var> pc_rel;                                  // variables mentioned by the path condition, with the arguments of such atoms
   std::map<Var, std::pair<mpq_class, mpq_class>> box;     // assumed range of a symbol (assume_range on a single symbol), per path
   std::unique_ptr<z3::model> model;                      // model of the last satisfiable query that asked for one
-  std::vector<VarInfo> vars;
+  std::deque<VarInfo> vars;                   // deque: references to entries stay valid while atoms are created
   std::vector<z3::expr> zvars;
   std::unordered_map<std::string, Var> var_by_key;
   // persistent rational constants
@@ -290,7 +290,7 @@ static z3::check_result query(const z3::expr* q, const std::set<Var>& qvars, uns
       for (size_t i = 0; i < e.pc.size(); i++) if (inc[i] && e.pc[i].lin) s1.add(e.pc[i].f);
       s1.add(*q);
       z3::check_result r1; try { r1 = s1.check(); } catch (z3::exception&) { r1 = z3::unknown; }
-      if (r1 == z3::unsat) { r = z3::unsat; decided = true; }
+      if (r1 == z3::unsat) { r = z3::unsat; decided = true; if (e.st) e.st->relaxed_unsat++; }
     }
   }
   z3::solver s(e.ctx);
@@ -990,8 +990,8 @@ static bool decide(const Poly& p, Rel rel) {
   { int ss = sign_syntactic(p); if (ss > 0 && rel == R_LT) return false; if (ss < 0 && rel == R_LE) return true; }
   { Poly sq; if (square_two_terms(p, sq)) return decide(sq, rel); }
   if (e.in_path && !e.box.empty()) { Ival iv = iv_poly(p, 0);
-    if (iv.ok) { if (iv.hi < 0) return rel == R_LT || rel == R_LE;          // p < 0 everywhere in the box
-                 if (iv.lo > 0) return false; } }                              // p > 0 everywhere: neither <, <= nor == holds
+    if (iv.ok) { if (iv.hi < 0) { if (e.st) e.st->interval_decided++; return rel == R_LT || rel == R_LE; }          // p < 0 everywhere in the box
+                 if (iv.lo > 0) { if (e.st) e.st->interval_decided++; return false; } } }                              // p > 0 everywhere: neither <, <= nor == holds
   if (!e.in_path) throw Abort{Abort::Unsupported, "symbolic comparison outside a path"};
   if (++e.branches_this_path > e.pol.max_branches) throw Abort{Abort::Budget, "branch budget of the path exceeded"};
   if (e.st) e.st->branch_points++;
@@ -1352,7 +1352,7 @@ static void write_case(std::ostream& o, const std::string& harness, const Case& 
     << ",\"paths\":" << s.paths << ",\"forks\":" << s.forks << ",\"branch_points\":" << s.branch_points
     << ",\"q_sat\":" << s.q_sat << ",\"q_unsat\":" << s.q_unsat << ",\"q_unknown\":" << s.q_unknown
     << ",\"asserts\":" << s.asserts << ",\"nf_trivial\":" << s.nf_trivial << ",\"solver_proved\":" << s.solver_proved
-    << ",\"native_checks\":" << s.native_checks << ",\"faults\":" << s.faults << ",\"abandoned\":" << s.abandoned
+    << ",\"native_checks\":" << s.native_checks << ",\"interval_decided\":" << s.interval_decided << ",\"relaxed_unsat\":" << s.relaxed_unsat << ",\"faults\":" << s.faults << ",\"abandoned\":" << s.abandoned
     << ",\"exceptions\":" << s.exceptions << ",\"symbolic_paths\":" << s.symbolic_paths << ",\"uninit_reads\":" << s.uninit_reads
     << ",\"max_symbols\":" << s.max_symbols << ",\"div0_assumed\":" << s.div0_assumed << ",\"sqrtneg_assumed\":" << s.sqrtneg_assumed << ",\"aux_unknown\":" << s.aux_unknown
     << ",\"solver_s\":" << s.solver_s << ",\"wall_s\":" << s.wall_s;
